@@ -8,6 +8,21 @@ from typing import Any, Dict, List
 from vk.core import Case, Ctx
 
 GEN_MODULES: List[str] = []
+MANIFEST = {
+    "design_ref": "§5 C16",
+    "text": ("Lean theorem c16_history: for every operation sequence over any number of header maps (all constructor "
+             "forms, combine, combine_lower_dict, replace, assignment, deletion) the two-dict representation keeps its "
+             "invariant and is in simulation with the abstract map keyed by folded name in which the last write wins and "
+             "keeps its spelling; lookup/len/iteration/KeyError corollaries (lookup_spec, len_spec, iter_spec, raises_spec, "
+             "last_write_wins). The model is tied to utils.CaseInsensitiveDict by a per-operation differential check of the "
+             "full observation vector of every live map, and the Lean judge obsOk is evaluated on the implementation's "
+             "observations."),
+    "note": ("Trusted: Lean kernel + propext/Classical.choice/Quot.sound; CPython dict semantics modelled as an association "
+             "list; ASCII keys only; object aliasing (replace(other) sharing by design) is not in the value-level model, "
+             "independence of copies is therefore carried by the correspondence runs, not by a theorem; == is judged and "
+             "compared but has no theorem yet; correspondence is sampled (exhaustive to a small depth over a reduced alphabet)."),
+    "technique": "Lean 4 proof (simulation by induction over operation sequences) + model/implementation correspondence",
+}
 RULE = ("operation sequences over 4 registers of header maps: every constructor form (dict, kwargs, dict+kwargs, "
         "lowerstr keys, another header map, CIMultiDict with repeated names) then set/del/del_lower/copy/combine/"
         "combine_lower_dict/replace/==; exhaustive to a fixed depth over a reduced alphabet, random beyond; after every "
